@@ -45,10 +45,10 @@ theorem dirOf_cases (d : Int) : dirOf d = 1 ∨ dirOf d = -1 := by
 theorem searchNext_factors (sh : Shape) (exec : Exec) (c : Cache) (s : SearchSt) (d : Int) (hne : c.nCached ≠ 0)
     (hp : PgOk (prepare sh s d).startPgno) (hok : StartOk sh c (prepare sh s d).startPgno) :
     (searchNext sh exec walkFuel c s d).res =
-      statusOf (runPos (callbackOf exec d) c
+      statusOf (runPos (callbackOf sh exec d) c
         (walkPositions sh c (prepare sh s d).startPgno (prepare sh s d).startSubno (dirOf d)) (prepare sh s d)).1 := by
   unfold searchNext
-  obtain ⟨h1, _⟩ := walk_factors sh (callbackOf exec d) c (prepare sh s d) (prepare sh s d).startPgno (prepare sh s d).startSubno
+  obtain ⟨h1, _⟩ := walk_factors sh (callbackOf sh exec d) c (prepare sh s d) (prepare sh s d).startPgno (prepare sh s d).startSubno
     (dirOf d) hne hp (dirOf_cases d)
   rw [walkRun_eq_runPos _ _ _ _ _ _ _ hp hok] at h1
   simp only [h1]
@@ -56,11 +56,11 @@ theorem searchNext_factors (sh : Shape) (exec : Exec) (c : Cache) (s : SearchSt)
 theorem searchNext_st (sh : Shape) (exec : Exec) (c : Cache) (s : SearchSt) (d : Int) (hne : c.nCached ≠ 0)
     (hp : PgOk (prepare sh s d).startPgno) (hok : StartOk sh c (prepare sh s d).startPgno) :
     (searchNext sh exec walkFuel c s d).st =
-      (let r := runPos (callbackOf exec d) c
+      (let r := runPos (callbackOf sh exec d) c
         (walkPositions sh c (prepare sh s d).startPgno (prepare sh s d).startSubno (dirOf d)) (prepare sh s d)
        if r.1 = -1 then { r.2 with dir := 0 } else r.2) := by
   unfold searchNext
-  obtain ⟨h1, h2⟩ := walk_factors sh (callbackOf exec d) c (prepare sh s d) (prepare sh s d).startPgno (prepare sh s d).startSubno
+  obtain ⟨h1, h2⟩ := walk_factors sh (callbackOf sh exec d) c (prepare sh s d) (prepare sh s d).startPgno (prepare sh s d).startSubno
     (dirOf d) hne hp (dirOf_cases d)
   rw [walkRun_eq_runPos _ _ _ _ _ _ _ hp hok] at h1 h2
   simp only [h1, h2]
@@ -90,9 +90,9 @@ theorem statusOf_success {r : Int} (h : statusOf r = .ret SEARCH_SUCCESS) : r = 
           · simp [h5, SEARCH_ERROR, SEARCH_SUCCESS] at h
 
 theorem pageFwd_one {exec : Exec} {s0 : SearchSt} {p : Nat} {e : Entry} {w : Bool} {s' : SearchSt}
-    (h : pageFwd exec s0 p e w = (1, s')) :
+    (h : pageFwd sh exec s0 p e w = (1, s')) :
     e.func = FUNC_LOP ∧ ∃ ms me,
-      exec {} ((hayFwd e.text (cursorRow s0 p e) s0.col0).1.drop (hayFwd e.text (cursorRow s0 p e) s0.col0).2) = some (ms, me) ∧
+      exec (fwdFlags sh (hayFwd e.text (cursorRow s0 p e) s0.col0).1 (hayFwd e.text (cursorRow s0 p e) s0.col0).2) ((hayFwd e.text (cursorRow s0 p e) s0.col0).1.drop (hayFwd e.text (cursorRow s0 p e) s0.col0).2) = some (ms, me) ∧
       s' = highlight { s0 with pgPgno := p, pgSubno := e.subno, hl := [] } p e (hayFwd e.text (cursorRow s0 p e) s0.col0).2 ms me := by
   unfold pageFwd at h
   by_cases h1 : stopFwd s0 p e w = true
@@ -108,7 +108,7 @@ theorem pageFwd_one {exec : Exec} {s0 : SearchSt} {p : Nat} {e : Entry} {w : Boo
         · simp [h4] at h
         · simp only [h4, if_false] at h
           refine ⟨by simpa using h2, ?_⟩
-          cases hx : exec {} ((hayFwd e.text (cursorRow s0 p e) s0.col0).1.drop (hayFwd e.text (cursorRow s0 p e) s0.col0).2) with
+          cases hx : exec (fwdFlags sh (hayFwd e.text (cursorRow s0 p e) s0.col0).1 (hayFwd e.text (cursorRow s0 p e) s0.col0).2) ((hayFwd e.text (cursorRow s0 p e) s0.col0).1.drop (hayFwd e.text (cursorRow s0 p e) s0.col0).2) with
           | none => rw [hx] at h; simp at h
           | some mm =>
             obtain ⟨ms, me⟩ := mm
@@ -121,7 +121,7 @@ theorem searchNext_success_fwd (sh : Shape) (exec : Exec) (c : Cache) (s : Searc
     (h : (searchNext sh exec walkFuel c s d).res = .ret SEARCH_SUCCESS) :
     ∃ p sub w e s0 ms me, (p, sub, w) ∈ walkPositions sh c (prepare sh s d).startPgno (prepare sh s d).startSubno 1 ∧
       lookupX c p sub = some e ∧ e.func = FUNC_LOP ∧
-      exec {} ((hayFwd e.text (cursorRow s0 p.toNat e) s0.col0).1.drop (hayFwd e.text (cursorRow s0 p.toNat e) s0.col0).2)
+      exec (fwdFlags sh (hayFwd e.text (cursorRow s0 p.toNat e) s0.col0).1 (hayFwd e.text (cursorRow s0 p.toNat e) s0.col0).2) ((hayFwd e.text (cursorRow s0 p.toNat e) s0.col0).1.drop (hayFwd e.text (cursorRow s0 p.toNat e) s0.col0).2)
         = some (ms, me) ∧
       (searchNext sh exec walkFuel c s d).st =
         highlight { s0 with pgPgno := p.toNat, pgSubno := e.subno, hl := [] } p.toNat e
@@ -130,13 +130,13 @@ theorem searchNext_success_fwd (sh : Shape) (exec : Exec) (c : Cache) (s : Searc
   rw [searchNext_factors sh exec c s d hne hp hok] at h
   have hr1 := statusOf_success h
   have hdir : dirOf d = 1 := by unfold dirOf; simp [hd]
-  have hcb : callbackOf exec d = pageFwd exec := by unfold callbackOf; simp [hd]
+  have hcb : callbackOf sh exec d = pageFwd sh exec := by unfold callbackOf; simp [hd]
   rw [hdir, hcb] at hr1 hst
-  generalize hrp : runPos (pageFwd exec) c (walkPositions sh c (prepare sh s d).startPgno (prepare sh s d).startSubno 1) (prepare sh s d) = rp at hr1 hst
+  generalize hrp : runPos (pageFwd sh exec) c (walkPositions sh c (prepare sh s d).startPgno (prepare sh s d).startSubno 1) (prepare sh s d) = rp at hr1 hst
   obtain ⟨r, s'⟩ := rp
   simp only at hr1 hst
   subst hr1
-  obtain ⟨p, sub, w, e, s0, hm, hl, hcall⟩ := runPos_hit (pageFwd exec) c _ _ _ _ hrp (by decide)
+  obtain ⟨p, sub, w, e, s0, hm, hl, hcall⟩ := runPos_hit (pageFwd sh exec) c _ _ _ _ hrp (by decide)
   obtain ⟨hf, ms, me, hex, hs'⟩ := pageFwd_one hcall
   refine ⟨p, sub, w, e, s0, ms, me, hm, hl, hf, hex, ?_⟩
   rw [hst]; simp; exact hs'
@@ -243,27 +243,29 @@ theorem hayRev_length (t : Text) (row col1 : Int) : (hayRev t row col1).1.length
 
 /-! ## the repeated matching of `search_page_rev` -/
 
-theorem revMatches_terminates (exec : Exec) (hay : List Nat) (ne : Bool)
-    (hpos : ∀ f t ms me, exec f t = some (ms, me) → 0 < me) :
-    revMatches exec hay ne (hay.length + 2) 0 0 0 ≠ none := by
-  have key : ∀ (f i ms me : Nat), hay.length - me < f → revMatches exec hay ne f i ms me ≠ none := by
-    intro f
-    induction f with
-    | zero => intro i ms me h; omega
-    | succ f ih =>
-      intro i ms me h
-      unfold revMatches
-      by_cases hlt : me < hay.length
-      · simp only [hlt, if_true]
-        cases hx : exec { notBol := decide (me > 0), notEol := ne } (hay.drop me) with
-        | none => simp
-        | some mm =>
-          obtain ⟨ms1, me1⟩ := mm
-          simp only
-          have := hpos _ _ _ _ hx
-          exact ih _ _ _ (by omega)
-      · simp [hlt]
-  exact key _ _ _ _ (by omega)
+/-- the loop of search_page_rev ends for EVERY matcher: `pos` grows in every round (b5116c9) -/
+theorem revMatches_total (sh : Shape) (exec : Exec) (hay : List Nat) (ne : Bool) :
+    ∀ (f i ms me pos : Nat), hay.length - pos < f → revMatches sh exec hay ne f i ms me pos ≠ none := by
+  intro f
+  induction f with
+  | zero => intro i ms me pos h; omega
+  | succ f ih =>
+    intro i ms me pos h
+    unfold revMatches
+    by_cases hlt : pos < hay.length
+    · simp only [hlt, if_true]
+      cases hx : exec (revFlags sh hay ne pos) (hay.drop pos) with
+      | none => simp
+      | some mm =>
+        obtain ⟨ms1, me1⟩ := mm
+        simp only
+        apply ih
+        split <;> omega
+    · simp [hlt]
+
+theorem revMatches_terminates (sh : Shape) (exec : Exec) (hay : List Nat) (ne : Bool) :
+    revMatches sh exec hay ne (hay.length + 2) 0 0 0 0 ≠ none :=
+  revMatches_total sh exec hay ne _ _ _ _ _ (by omega)
 
 /-! ## highlight -/
 
